@@ -139,6 +139,9 @@ pub enum Api {
     TryStream,
     Stream,
     Iter,
+    /// `query::runner::reshard_tag::reshard_aad`: the stream yields (position, record) pairs, the
+    /// positions stay on the shard, the records are resharded
+    Aad,
 }
 
 #[derive(Clone, Debug, PartialEq, Eq, Hash)]
@@ -573,6 +576,35 @@ async fn run_in<const N: usize, K: Rec>(spec: &Spec, plains: &[Vec<Plain>]) -> R
                                 let st = GenStream { items: q, extra, delays: timing.item.clone(), k: 0, wait: 0, armed: false };
                                 reshard_try_stream(ctx, st, picker).await
                             }
+                            Api::Aad => {
+                                let n_local = items.len();
+                                let mut q: VecDeque<Item<K>> = items.into_iter().map(Item::Rec).collect();
+                                if let Some(e) = &err {
+                                    q.insert(e.pos.min(q.len()), Item::Fail(e.kind));
+                                }
+                                let fails_at = err.as_ref().map(|e| e.pos.min(n_local));
+                                let st = GenStream { items: q, extra, delays: timing.item.clone(), k: 0, wait: 0, armed: false };
+                                let mut pos = 0u32;
+                                let st = st.map(move |r| {
+                                    r.map(|k| {
+                                        pos += 1;
+                                        (pos - 1, k)
+                                    })
+                                });
+                                match crate::query::ipa_verif_h5::reshard_aad(ctx, st, picker).await {
+                                    Ok((kept, resharded)) => {
+                                        // the local half: every position of this shard's input, in order
+                                        // (when the input failed, the oracle reports the Ok itself)
+                                        let want: Vec<u32> = (0..n_local as u32).collect();
+                                        if kept == want || fails_at.is_some() {
+                                            Ok(resharded)
+                                        } else {
+                                            Err(Error::InvalidQueryParameter(format!("c19-aad-local-half: reshard_aad kept {kept:?}, this shard's input positions are {want:?}").into()))
+                                        }
+                                    }
+                                    Err(e) => Err(e),
+                                }
+                            }
                             Api::Stream => reshard_stream(ctx, stream::iter(items), picker).await,
                             Api::Iter => reshard_iter(ctx, items, picker).await,
                         };
@@ -649,6 +681,9 @@ fn selection(spec: &Spec, plains: &[Vec<Plain>], run: &Run, h: usize) -> Result<
                 Some(d) => d,
                 None => match run.picks[h][s].iter().find(|(rid, _)| *rid as usize == j) {
                     Some((_, d)) => *d as usize,
+                    // with a single shard there is only one possible destination: an
+                    // implementation need not ask
+                    None if spec.shards == 1 => 0,
                     None => return Err(format!("helper {h} shard {s}: the selection function was never asked about record {j}")),
                 },
             };
@@ -923,8 +958,8 @@ fn gen_spec(env: &Env, src: &mut Src<'_>, flavor: Flavor) -> (Spec, Vec<String>)
     let rec = src.pick(&[RecType::Share64, RecType::PrfReport]);
     let rec = if flavor == Flavor::Transport && src.bool() { RecType::PrfReport } else { rec };
     let api = match flavor {
-        Flavor::StreamErr => Api::TryStream,
-        _ => src.pick(&[Api::TryStream, Api::Stream, Api::Iter, Api::TryStream]),
+        Flavor::StreamErr => src.pick(&[Api::TryStream, Api::Aad]),
+        _ => src.pick(&[Api::TryStream, Api::Stream, Api::Iter, Api::TryStream, Api::Aad]),
     };
     let mode = match src.below(if rec == RecType::PrfReport { 6 } else { 5 }) {
         0 => Mode::RoundRobin(src.idx(shards)),
@@ -934,7 +969,7 @@ fn gen_spec(env: &Env, src: &mut Src<'_>, flavor: Flavor) -> (Spec, Vec<String>)
         4 => Mode::Table(counts.iter().map(|n| (0..*n).map(|_| src.idx(shards)).collect()).collect()),
         _ => Mode::ByValue,
     };
-    let hint_extra: Vec<usize> = (0..shards).map(|_| if api == Api::TryStream { src.pick(&[0usize, 0, 1, 3, 17, 1000]) } else { 0 }).collect();
+    let hint_extra: Vec<usize> = (0..shards).map(|_| if matches!(api, Api::TryStream | Api::Aad) { src.pick(&[0usize, 0, 1, 3, 17, 1000]) } else { 0 }).collect();
     let malicious = src.bool();
     let workers = src.pick(&[0usize, 0, 2, 4]);
     let active = src.pick(&[0u32, 2, 4, 16, 64, 0]);
@@ -944,7 +979,7 @@ fn gen_spec(env: &Env, src: &mut Src<'_>, flavor: Flavor) -> (Spec, Vec<String>)
             (0..shards)
                 .map(|_| {
                     let start = if src.chance(1, 2) { src.below(12) as u8 } else { 0 };
-                    let item = if api == Api::TryStream && src.chance(1, 2) { (0..3).map(|_| src.below(4) as u8).collect() } else { vec![] };
+                    let item = if matches!(api, Api::TryStream | Api::Aad) && src.chance(1, 2) { (0..3).map(|_| src.below(4) as u8).collect() } else { vec![] };
                     Timing { start, item }
                 })
                 .collect()
@@ -1156,7 +1191,7 @@ pub fn small_tables(_env: &Env, src: &mut Src<'_>) -> CaseResult {
         shards,
         counts,
         rec: if (i / 3) % 2 == 0 { RecType::Share64 } else { RecType::PrfReport },
-        api: [Api::TryStream, Api::Stream, Api::Iter][(i % 3) as usize],
+        api: [Api::TryStream, Api::Stream, Api::Iter, Api::Aad][(i % 4) as usize],
         mode: Mode::Table(table),
         hint_extra: vec![0; shards],
         malicious: (i / 6) % 2 == 1,
@@ -1182,7 +1217,7 @@ pub fn subs(_env: &Env) -> Vec<Sub> {
     vec![
         Sub::random(
             "reshard_order", 700, 12_000, 240_000, honest,
-            "shards {1,2,3,5} x records per source shard (all empty, one record, fewer than shards, one source only, even, skewed, random split; total 0..80, thorough 0..400) x record type {Replicated<BA64>, PrfHybridReport<BA8,BA3>} x entry point {reshard_try_stream, reshard_stream, reshard_iter} x selection {round-robin by record id, all-to-one, keep, ctx.pick_shard (PRSS) as the shuffle does, generated table, public value mod S as the PRF resharding does} x size hint overstated by {0,1,3,17,1000} x {semi-honest, malicious} sharded context x runtime {current-thread, 2/4 workers} x gateway active {default,2,4,16,64} / read size {default,16,24,48,100} x per helper-shard start delay and input-stream Pending pattern; oracle: every helper-shard returns Ok and shard d of helper h holds exactly concat over source shards s=0..S-1 of the records of input(h,s) selected for d, in input order (the documented order), compared record by record with the helper's own copies; non-trivial = >=2 shards, a record changes shard and some shard is fed by >=2 sources",
+            "shards {1,2,3,5} x records per source shard (all empty, one record, fewer than shards, one source only, even, skewed, random split; total 0..80, thorough 0..400) x record type {Replicated<BA64>, PrfHybridReport<BA8,BA3>} x entry point {reshard_try_stream, reshard_stream, reshard_iter, query::runner::reshard_aad (positions stay local, records are resharded)} x selection {round-robin by record id, all-to-one, keep, ctx.pick_shard (PRSS) as the shuffle does, generated table, public value mod S as the PRF resharding does} x size hint overstated by {0,1,3,17,1000} x {semi-honest, malicious} sharded context x runtime {current-thread, 2/4 workers} x gateway active {default,2,4,16,64} / read size {default,16,24,48,100} x per helper-shard start delay and input-stream Pending pattern; oracle: every helper-shard returns Ok and shard d of helper h holds exactly concat over source shards s=0..S-1 of the records of input(h,s) selected for d, in input order (the documented order), compared record by record with the helper's own copies; non-trivial = >=2 shards, a record changes shard and some shard is fed by >=2 sources",
         )
         .shrink_iters(60),
         Sub::exhaustive(
@@ -1191,7 +1226,7 @@ pub fn subs(_env: &Env) -> Vec<Sub> {
         ),
         Sub::random(
             "stream_errors", 700, 4000, 80_000, stream_errors,
-            "as reshard_order (reshard_try_stream only) with an Err item at a generated position (first, middle, after the last record) of the input stream of one or two helper-shards; oracle: that helper-shard returns Err (never Ok with fewer records); helpers without a failing stream return exactly the expected content on every shard; a sibling shard of a failed shard may wait forever, fail, or return Ok with all records of the healthy sources and a prefix of those the failed shard selected for it",
+            "as reshard_order (reshard_try_stream and reshard_aad) with an Err item at a generated position (first, middle, after the last record) of the input stream of one or two helper-shards; oracle: that helper-shard returns Err (never Ok with fewer records); helpers without a failing stream return exactly the expected content on every shard; a sibling shard of a failed shard may wait forever, fail, or return Ok with all records of the healthy sources and a prefix of those the failed shard selected for it",
         )
         .shrink_iters(60),
         Sub::random(
